@@ -132,14 +132,14 @@ class _Judge:
         self.findings.append(Finding(kind=kind, proc=str(proc.name), detail=detail))
 
     # -- expressions ---------------------------------------------------------
-    def prec_of(self, e, env, proc, direct=True):
+    def prec_of(self, e, env, proc):
         """concrete precision of a numeric expression or None; reports mixed
         operands and forbidden reads on the way"""
         if isinstance(e, LoopIR.Read):
             d = env.get(e.name)
             if d is None:
                 return None  # an index / size / bool variable
-            if direct and not mem_can_read(d.mem):
+            if not mem_can_read(d.mem):
                 self.add("forbidden_direct_access", proc, f"read of {e.name} in {d.mem.name()}")
             return d.prec
         if isinstance(e, LoopIR.Const):
